@@ -899,6 +899,9 @@ static int cmd_run(
                     if (t.has("faults_fired"))
                         for (auto& kv : t.at("faults_fired").o)
                             s.faults[kv.first] = kv.second.u64();
+                    if (t.has("reach"))
+                        for (auto& kv : t.at("reach").o)
+                            s.reach[kv.first] = kv.second.u64();
                     child_stats = s;
                     child_nontrivial = (long)t.geti("nontrivial_distinct", 0);
                 } catch (std::exception&) {
